@@ -640,7 +640,12 @@ class Checker:
                 self._conn_closed(conn)
             elif ev["kind"] == "request-error":
                 self.pulls.pop(conn, None)
-                self.waits.pop(conn, None)
+                waited = self.waits.pop(conn, None) or []
+                if any(self.dropped(w.jobid if isinstance(w, MJob) else w) for w in waited) and "KeyError" in ev["error"]:
+                    # a wait that is served after its (finished) job was dropped by the watchdog: the id is unknown by then and
+                    # the server answers with an error - nothing the properties forbid
+                    self.labels.add("wait-on-dropped-job-answered-with-error")
+                    continue
                 self.V("C16", "request-raised", "%s: %s" % (conn.name, ev["error"]))
         for conn, p in self.pulls.items():
             p["blocked"] = True
